@@ -211,7 +211,7 @@ class Fn:
                 key = ".".join(rest[:j])
                 if key in table:
                     suffix, ft = table[key]
-                    return self.fields(f"{e}{suffix}", ft, rest[j:])
+                    return self.fields(suffix.format(e) if "{}" in suffix else f"{e}{suffix}", ft, rest[j:])
         raise NotTranslatable(f"attribute {'.'.join(rest)} of a value of type {t}")
 
     def lookup(self, node, env):
@@ -239,7 +239,13 @@ class Fn:
         if isinstance(node, (ast.Name, ast.Attribute)):
             r = self.lookup(node, env)
             if r is None:
-                raise NotTranslatable("attribute of a computed value")
+                # attribute path on a computed value (`packet_headers[i].lower_name`)
+                attrs, base = [], node
+                while isinstance(base, ast.Attribute):
+                    attrs.append(base.attr)
+                    base = base.value
+                e, t = self.expr(base, env)
+                return self.fields(e, t, list(reversed(attrs)))
             return r
         if isinstance(node, ast.BoolOp):
             op = " && " if isinstance(node.op, ast.And) else " || "
@@ -358,6 +364,9 @@ class Fn:
                 return (f"(List.take ({hi} - {lo}) (List.drop {par(lo)} {par(base)}))", "Bytes")
             i = self.nat_index(node.slice, env)
             return (f"(List.getD {par(base)} {par(i)} 0)", "Nat")          # IndexError beyond the end: totalised to 0
+        if tb.startswith("List:Rec:") and not isinstance(node.slice, ast.Slice):
+            i = self.nat_index(node.slice, env)
+            return (f"(List.getD {par(base)} {par(i)} default)", tb[5:])          # IndexError beyond the end: totalised
         if tb.startswith("Unpacked:"):
             # element of struct.unpack(...) :  decided by the table entry of the key
             if not (isinstance(node.slice, ast.Constant) and isinstance(node.slice.value, int)):
@@ -612,6 +621,17 @@ class Fn:
             if len(g.generators) == 1 and not g.generators[0].is_async:
                 gen = g.generators[0]
                 items = self.literal_items(gen.iter, env)
+                if items is None and isinstance(gen.target, ast.Name):
+                    it, tit = self.expr(gen.iter, env)
+                    if tit.startswith("List:"):
+                        v = self.lean_name(gen.target.id)
+                        env2 = dict(env)
+                        env2[gen.target.id] = (v, tit[5:])
+                        c = self.cond(g.elt, env2)
+                        for cnd in gen.ifs:
+                            gc = self.cond(cnd, env2)
+                            c = f"({gc} && {c})" if fname == "any" else f"((!{gc}) || {c})"
+                        return (f"(List.{fname} {par(it)} (fun {v} => {c}))", "Bool")
                 if items is not None:
                     parts = []
                     for item in items:
@@ -1264,8 +1284,17 @@ class Fn:
                 d = dotted(tg)
                 if d in env and d not in assigned:
                     assigned.append(d)
-            if isinstance(n, (ast.Break, ast.While, ast.For)) and n is not s:
-                raise NotTranslatable("break / nested loop")
+            if isinstance(n, ast.For) and n is not s:
+                raise NotTranslatable("nested for loop")
+        def direct_break(stmts):
+            for st in stmts:
+                if isinstance(st, ast.Break):
+                    return True
+                if isinstance(st, ast.If) and (direct_break(st.body) or direct_break(st.orelse)):
+                    return True
+            return False
+        if direct_break(s.body):
+            raise NotTranslatable("break in a general for loop")
         aux = f"{self.t['lean']}_loop{len(self.aux)}"
         params = list(self.t["params"]) + self.outer_locals(env, assigned)
         psig = " ".join(f"({p} : {ty})" for p, ty in params)
@@ -1281,6 +1310,7 @@ class Fn:
         env_c = dict(env_nil)
         if tuple_names is None:
             env_c[x] = (x, elt)
+            self.let_bound.add(x)
         else:
             tys = split_top(elt[6:]) if elt.startswith("Tuple:") else []
             if len(tys) != len(tuple_names):
